@@ -78,8 +78,8 @@ def verify_getter(ex, contract, timeout_ms=30000):
         if is_sec:
             st0.assume(And(parent.term != self.term, rt.term != self.term, E.get(parent, "root").term == rt.term, E.get(self, "_issec")))
         if cls == "StrategyBase":
-            # W: every strategy node is on the root's date (strategies are updated with their root)
-            st0.assume(E.get(self, "now").eq(E.get(rt, "now")))
+            # no assumption that the strategy is on the root's date: a child attached during the run has not been updated yet, and its accessors
+            # must still refresh the tree for the ROOT's date (they passed their own date before fix F24 and this contract assumed the two equal)
             st0.assume(Not(E.get(self, "_issec")))
         E = st0.heap.copy()
         t0 = time.time()
